@@ -1,0 +1,17 @@
+//go:build verif
+
+package publish
+
+import (
+	"net/http"
+	"net/url"
+)
+
+// VerifSetEndpoint points the publisher at a simulated API endpoint. It exists
+// only in builds with the verif tag.
+func (cf *CloudflarePublisher) VerifSetEndpoint(base url.URL, rt http.RoundTripper) {
+	cf.baseURL = base
+	if rt != nil {
+		cf.client.HTTPClient.Transport = rt
+	}
+}
